@@ -21,7 +21,7 @@ func c04Prop(st *CaseStats, fam int) func(t *rapid.T) {
 		sc := GenScenario(t)
 		cfg := CaseCfg{Family: fam, MaxDocs: 6, MaxIn: 3}
 		depth := 0
-		if fam == FamSmall {
+		if fam == FamSmall || fam == FamMid {
 			depth = rapid.SampledFrom([]int{0, 1, 1, 2, 3}).Draw(t, "depth")
 		} else {
 			cfg.MaxIn = 2
@@ -139,4 +139,10 @@ func TestC04Wide(t *testing.T) {
 	st := NewStats("C04Wide", c04Rule)
 	defer st.Flush()
 	rapid.Check(t, c04Prop(st, FamWide))
+}
+
+func TestC04Mid(t *testing.T) {
+	st := NewStats("C04Mid", c04Rule)
+	defer st.Flush()
+	rapid.Check(t, c04Prop(st, FamMid))
 }
